@@ -6,10 +6,12 @@
  "replace": [],
  "annotate": ["crypto/crypto_aes_aesni.c"],
  "defines": ["VERIF_HALLOC", "CPUSUPPORT_X86_AESNI=1", "SPEC_AES_SBOX_UF"],
- "models": ["models/x86_sse2.c", "models/x86_aesni.c"],
+ "models": ["models/x86_sse2.c"],
  "cflags": ["-msse2", "-maes"],
- "timeout": 30,
- "assumptions": ["aeskeygenassist, pshufd, pslldq modelled from the Intel SDM (models/x86_aesni.c, models/x86_sse2.c)",
+ "timeout": 400,
+ "backend": "kissat",
+ "assumptions": ["models/x86_aesni.c (included by harness/C02/aesni.h): AESENC, AESENCLAST, AESKEYGENASSIST from the Intel SDM",
+                 "aeskeygenassist, pshufd, pslldq modelled from the Intel SDM (models/x86_aesni.c, models/x86_sse2.c)",
                  "S-box abstracted to an arbitrary function on both sides (SPEC_AES_SBOX_UF); the real S-box is C02/aes_spec_sbox",
                  "specification: spec/aes_spec.h KeyExpansion (FIPS-197 5.2), Nk = 4"]
 }
@@ -20,18 +22,22 @@ void
 h_exp128(void)
 {
 	uint8_t * key = malloc(16);
-	__m128i * rk = malloc(11 * sizeof(__m128i));
-	__CPROVER_assume(key != NULL && rk != NULL);
+	uint8_t * rkb = malloc(176);		/* 11 round keys */
+	__CPROVER_assume(key != NULL && rkb != NULL);
 	IN(size_t, k);
 	g_k = k;
+#ifdef SPEC_AES_SBOX_UF
 	__CPROVER_havoc_object(g_aes_sbox_uf);
-	uint8_t w[240];
+#endif
+	/* ghost point: this key, and its FIPS-197 key schedule computed by the specification */
+	for (int i = 0; i < 16; i++)
+		g_ks_key[i] = key[i];
+	spec_aes_key_expansion(g_ks_key, 4, g_ks_w);
 
-	crypto_aes_key_expand_128_aesni(key, rk);
+	crypto_aes_key_expand_128_aesni(key, (__m128i *)rkb);
 
-	spec_aes_key_expansion(key, 4, w);
 	for (int i = 0; i < 176; i++)
-		__CPROVER_assert(((const uint8_t *)rk)[i] == w[i], "round keys = FIPS-197 KeyExpansion(key), Nk = 4");
+		__CPROVER_assert(rkb[i] == g_ks_w[i], "round keys = FIPS-197 KeyExpansion(key), Nk = 4");
 	VCOVER(g_k == 175 && key[0] == 0x2b);
 	VCOVER(g_k == 16);
 }
